@@ -10,13 +10,14 @@ Open Scope Z_scope.
 
 (* one round of the per-function pipeline with value numbering on *)
 Lemma round_preserves w f f1 fl :
-  wf_func f = true -> no_break_l (f_body f) = true -> no_dead_final_operands f -> ccp f = Some (f1, fl) ->
+  wf_func f = true -> no_break_l (f_body f) = true -> no_dead_final_operands f -> no_struct_forwarding f ->
+  ccp f = Some (f1, fl) ->
   refines_add w (dce (lvn f1)) f /\ wf_func (dce (lvn f1)) = true /\ no_break_l (f_body (dce (lvn f1))) = true.
 Proof.
-  intros H1 Hn H2 H3.
-  pose proof (ccp_wf_named f f1 fl H1 Hn H2 H3) as H4. pose proof (lvn_wf f1 H4) as H5.
+  intros H1 Hn H2 Hnf H3.
+  pose proof (ccp_wf_named f f1 fl H1 Hn H2 Hnf H3) as H4. pose proof (lvn_wf f1 H4) as H5.
   split; [|split].
-  - apply (refines_add_trans w f f1); [exact (ccp_preserves_add_named w f f1 fl H1 H2 H3)|].
+  - apply (refines_add_trans w f f1); [exact (ccp_preserves_add_named w f f1 fl H1 H2 Hnf H3)|].
     apply (refines_add_trans w f1 (lvn f1)); [exact (lvn_preserves_add w f1 H4)|].
     intros args fuel v tr Hs. exact (dce_preserves_mode Add w (lvn f1) args fuel v tr H5 Hs).
   - apply dce_wf. exact H5.
@@ -37,15 +38,16 @@ Proof.
   apply in_or_app. destruct Hi; auto.
 Qed.
 
-Lemma okr_ccp w f r : okr w f r -> okr w f (then_ccp r).
+Lemma okr_ccp w f r : okr w f r -> okr w f (then_ccp ver_nf r).
 Proof.
-  destruct r as [[[f1 fl1] s]|]; cbn; [|auto]. intros H. destruct (ccp f1) as [[f2 fl2]|] eqn:E; cbn; [|exact I].
+  destruct r as [[[f1 fl1] s]|]; cbn; [|auto]. intros H. change (ccp_gen ver_nf f1) with (ccp_nf f1).
+  destruct (ccp_nf f1) as [[f2 fl2]|] eqn:E; cbn; [|exact I].
   intros Hf. apply orb_false_elim in Hf. destruct Hf as [Hf1 Hf2]. destruct (H Hf1) as (R & W & N & F).
-  destruct (ccp_binders f1 f2 fl2 W E Hf2) as [Ep Hb].
+  destruct (ccp_nf_binders f1 f2 fl2 W E Hf2) as [Ep Hb].
   split; [|split; [|split]].
-  - apply (refines_add_trans w f f1); [exact R|]. exact (ccp_preserves_add w f1 f2 fl2 W E Hf2).
-  - exact (ccp_wf f1 f2 fl2 W N E Hf2).
-  - exact (ccp_no_break f1 f2 fl2 N E).
+  - apply (refines_add_trans w f f1); [exact R|]. exact (ccp_nf_preserves_add w f1 f2 fl2 W E Hf2).
+  - exact (ccp_nf_wf f1 f2 fl2 W N E Hf2).
+  - exact (ccp_gen_no_break ver_nf f1 f2 fl2 eq_refl N E).
   - exact (fresh_for_sub s f1 f2 F Ep Hb).
 Qed.
 Lemma okr_pure w f r (p : func -> func) :
@@ -77,7 +79,7 @@ Qed.
 Lemma lvn_step w g : wf_func g = true -> refines_add w (lvn g) g /\ wf_func (lvn g) = true /\
   f_params (lvn g) = f_params g /\ incl' (binders_l (f_body (lvn g))) (binders_l (f_body g)).
 Proof. intros W. split; [exact (lvn_preserves_add w g W)|]. split; [exact (lvn_wf g W) | exact (lvn_binders g W)]. Qed.
-Lemma okr_round w f b c r : okr w f r -> okr w f (one_round b c r).
+Lemma okr_round w f b c r : okr w f r -> okr w f (one_round ver_nf b c r).
 Proof.
   intros H. unfold one_round. apply okr_pure; [apply dce_step | apply dce_no_break|].
   destruct b; [apply okr_pure; [apply lvn_step | apply lvn_no_break | apply okr_cse, okr_ccp; exact H]|].
@@ -86,21 +88,31 @@ Proof.
 Qed.
 
 (* optimize_function_for_rounds, restricted to the modelled passes, on its input only *)
-Theorem pipeline_preserves w b c sup f f' fl sup' :
+Theorem pipeline_nf_preserves w b c sup f f' fl sup' :
   wf_func f = true -> no_break_l (f_body f) = true -> fresh_for sup f ->
-  pipeline b c sup f = Some (f', fl, sup') -> fst fl = false ->
+  pipeline_gen ver_nf b c sup f = Some (f', fl, sup') -> fst fl = false ->
   refines_add w f' f /\ wf_func f' = true /\ no_break_l (f_body f') = true.
 Proof.
   intros W N F E Hf.
   assert (H0 : okr w f (Some (f, fl0, sup))) by (intros _; split; [apply refines_add_refl | auto]).
   pose proof (okr_ccp w f _ (okr_pure w f _ dce (dce_step w) dce_no_break (okr_ccp w f _ (okr_round w f b c _ (okr_round w f b c _ H0))))) as H.
-  change (okr w f (pipeline b c sup f)) in H. rewrite E in H. destruct (H Hf) as (R & W' & N' & _). auto.
+  change (okr w f (pipeline_gen ver_nf b c sup f)) in H. rewrite E in H. destruct (H Hf) as (R & W' & N' & _). auto.
+Qed.
+(* the pipeline itself: the same whenever forwarding of struct fields does not change its result on f *)
+Theorem pipeline_preserves w b c sup f f' fl sup' :
+  wf_func f = true -> no_break_l (f_body f) = true -> fresh_for sup f -> pipeline_no_struct_forwarding b c sup f ->
+  pipeline b c sup f = Some (f', fl, sup') -> fst fl = false ->
+  refines_add w f' f /\ wf_func f' = true /\ no_break_l (f_body f') = true.
+Proof.
+  intros W N F Hn E Hf. unfold pipeline_no_struct_forwarding in Hn. rewrite <- Hn in E.
+  exact (pipeline_nf_preserves w b c sup f f' fl sup' W N F E Hf).
 Qed.
 Corollary pipeline_preserves_named w b c sup f f' fl sup' :
-  wf_func f = true -> no_break_l (f_body f) = true -> fresh_for sup f -> pipeline_no_dead_final_operands b c sup f ->
+  wf_func f = true -> no_break_l (f_body f) = true -> fresh_for sup f ->
+  pipeline_no_dead_final_operands b c sup f -> pipeline_no_struct_forwarding b c sup f ->
   pipeline b c sup f = Some (f', fl, sup') ->
   refines w f' f /\ wf_func f' = true /\ no_break_l (f_body f') = true.
 Proof.
-  intros W N F D E. unfold pipeline_no_dead_final_operands in D. rewrite E in D.
-  destruct (pipeline_preserves w b c sup f f' fl sup' W N F E D) as (R & W' & N'). split; [apply refines_add_refines; exact R | auto].
+  intros W N F D Hn E. unfold pipeline_no_dead_final_operands in D. rewrite E in D.
+  destruct (pipeline_preserves w b c sup f f' fl sup' W N F Hn E D) as (R & W' & N'). split; [apply refines_add_refines; exact R | auto].
 Qed.
